@@ -91,6 +91,8 @@ LitsSel == << StrV(<< "a" >>), StrV(<< "b" >>), BoolV(TRUE), BoolV(FALSE), IntV(
 LitsCast == << StrV(<< "1", "2" >>), StrV(<< "-", "3" >>), StrV(<< "1", ".", "5" >>), StrV(<< "t", "r", "u", "e" >>),
                StrV(<< "x" >>), StrV(<< >>), IntV(7), FloatV(5, 1), FloatV(2, 0), BoolV(FALSE), Null >>
 LitsFmt == << IntV(1), StrV(<< "a" >>), BoolV(TRUE), FloatV(3, 1), Null >>
+OpsStr == {"add", "eq", "re", "nre", "ne"}
+LitsStr2 == << StrV(<< "a" >>), StrV(<< "a", "b" >>), StrV(<< >>), StrV(<< "b" >>), IntV(1) >>
 OpsFew == {"add", "eq", "and", "lt"}
 OpsFew2 == {"add", "sub", "eq", "or"}
 Sigs2 == << << Fld(n_x, IntV(2)) >>, << Fld(n_a, IntV(5)) >> >>
